@@ -1,6 +1,7 @@
 //! Execution of a case against the real `ArcCC` plus the RFC 9002 reference oracle (clauses (a)..(h) of C13).
 use std::{
     collections::BTreeMap,
+    rc::Rc,
     sync::{Arc, Mutex, atomic::AtomicU16},
 };
 
@@ -103,7 +104,15 @@ struct Sim<'a> {
     start: Instant,
     next_tick: Instant,
     idle_ticks: u32,
-    snap: VerifCcSnapshot,
+    snap: Rc<VerifCcSnapshot>,
+    /// sum of the sizes of the in-flight packets the model still has outstanding
+    model_sum: usize,
+    /// the Initial space was abandoned once (the RFC's one-time key discard)
+    initial_discarded_once: bool,
+    /// a legitimate reason to reset the PTO back-off happened inside the current call
+    pto_reset_ok: bool,
+    /// the controller abandoned the Initial space again inside the current call
+    repeated_discard: bool,
     out: Outcome,
     th: TraceHash,
     mad: Duration,
@@ -179,7 +188,7 @@ impl<'a> Sim<'a> {
             aa_limited = false;
         }
         let start = Instant::now();
-        let snap = cc.verif_snapshot();
+        let snap = Rc::new(cc.verif_snapshot());
         let mut spaces: [Space; 3] = Default::default();
         if case.start_confirmed {
             spaces[0].discarded = true;
@@ -196,6 +205,10 @@ impl<'a> Sim<'a> {
             next_tick: start + TICK,
             idle_ticks: 0,
             snap,
+            model_sum: 0,
+            initial_discarded_once: case.start_confirmed,
+            pto_reset_ok: false,
+            repeated_discard: false,
             out: Outcome::default(),
             th: TraceHash::default(),
             mad,
@@ -296,6 +309,10 @@ impl<'a> Sim<'a> {
     }
 
     fn discard(&mut self, e: usize) {
+        self.pto_reset_ok = true;
+        if e == 0 {
+            self.initial_discarded_once = true;
+        }
         self.cc.discard_epoch(ep(e));
         self.model_discard(e);
         self.out.stats.bump("probe.epoch_discarded");
@@ -303,6 +320,8 @@ impl<'a> Sim<'a> {
     }
 
     fn model_discard(&mut self, e: usize) {
+        let gone: usize = self.spaces[e].pkts.values().filter(|p| p.inf && p.st == St::Out).map(|p| p.size).sum();
+        self.model_sum -= gone;
         let sp = &mut self.spaces[e];
         sp.pkts.clear();
         sp.arrivals.clear();
@@ -488,6 +507,9 @@ impl<'a> Sim<'a> {
         self.cc.on_pkt_sent(ep(e), pn, ae, size, inf, None);
         self.sent += 1;
         self.spaces[e].pkts.insert(pn, Pkt { t_sent: now, size, ae, inf, st: St::Out, was_lost: false, probed: false });
+        if inf {
+            self.model_sum += size;
+        }
         match fate {
             Fate::Deliver { ms } => {
                 let at = now + Duration::from_millis(ms as u64);
@@ -508,6 +530,13 @@ impl<'a> Sim<'a> {
         }
         if e == 1 && !self.case.server {
             // ArcCC::on_pkt_sent: a client that sends a Handshake packet abandons the Initial space
+            // (RFC 9001 §4.9.1: once, when it first sends a Handshake packet)
+            if !self.initial_discarded_once {
+                self.initial_discarded_once = true;
+                self.pto_reset_ok = true;
+            } else {
+                self.repeated_discard = true;
+            }
             self.model_discard(0);
         }
         self.after(Kind::Send, &[], None);
@@ -584,10 +613,14 @@ impl<'a> Sim<'a> {
         let sp = &mut self.spaces[e];
         sp.largest_acked = Some(sp.largest_acked.map_or(largest, |l| l.max(largest)));
         let mut newly: Vec<(u64, Instant, bool, bool, bool)> = Vec::new(); // pn, t_sent, ae, inf, was_lost
+        let mut acked_bytes = 0usize;
         for (hi, lo) in &ranges {
             for (pn, p) in sp.pkts.range_mut(*lo..=*hi) {
                 if p.st != St::Acked {
                     newly.push((*pn, p.t_sent, p.ae, p.inf, p.st == St::Lost));
+                    if p.st == St::Out && p.inf {
+                        acked_bytes += p.size;
+                    }
                     if p.st == St::Lost {
                         p.was_lost = true;
                     }
@@ -595,8 +628,11 @@ impl<'a> Sim<'a> {
                 }
             }
         }
+        self.model_sum -= acked_bytes;
         let mut ce_trigger = None;
         if !newly.is_empty() {
+            // OnAckReceived resets pto_count (if the peer has validated the address)
+            self.pto_reset_ok = true;
             self.acked += newly.len() as u64;
             let big = newly.iter().max_by_key(|n| n.0).unwrap();
             let clean_ae = newly.iter().any(|n| n.2 && !n.4);
@@ -631,6 +667,12 @@ impl<'a> Sim<'a> {
             self.hs.received_handshake_ack();
             if self.case.server {
                 // ArcCC::on_ack_rcvd: a server that gets a Handshake ACK abandons the Initial space
+                if !self.initial_discarded_once {
+                    self.initial_discarded_once = true;
+                    self.pto_reset_ok = true;
+                } else {
+                    self.repeated_discard = true;
+                }
                 self.model_discard(0);
             }
         }
@@ -642,8 +684,9 @@ impl<'a> Sim<'a> {
     fn after(&mut self, kind: Kind, newly: &[(u64, Instant, bool, bool, bool)], ce_trigger: Option<Instant>) {
         let now = Instant::now();
         let at = self.elapsed_ms();
-        let pre = std::mem::replace(&mut self.snap, self.cc.verif_snapshot());
-        let post = self.snap.clone();
+        let pre = self.snap.clone();
+        let post = Rc::new(self.cc.verif_snapshot());
+        self.snap = post.clone();
         let mut lost: Vec<(usize, u64, bool)> =
             std::mem::take(&mut *self.log.lock().unwrap()).into_iter().map(|(e, _, pn)| (e, pn, false)).collect();
         // packets whose state turned "declared lost" without a callback
@@ -725,6 +768,7 @@ impl<'a> Sim<'a> {
             }
             p.st = St::Lost;
             if p.inf {
+                self.model_sum -= p.size;
                 lost_inflight_latest = Some(lost_inflight_latest.map_or(p.t_sent, |t| t.max(p.t_sent)));
             }
             lost_pkts.push((e, pn, p.t_sent, p.ae));
@@ -740,6 +784,22 @@ impl<'a> Sim<'a> {
                 }
             }
         }
+
+        // ---- (c) the back-off is only reset by an acknowledgement or by discarding keys
+        if post.pto_count < pre.pto_count && !self.pto_reset_ok {
+            self.out.stats.bump("probe.pto_backoff_reset_without_cause");
+            self.out.violate(
+                "c-pto-backoff",
+                if self.repeated_discard { "backoff-reset:initial-space-discarded-again".to_string() } else { format!("backoff-reset:{}", kind.name()) },
+                format!(
+                    "pto_count {} → {} although nothing was newly acknowledged and no packet number space was discarded for the first time",
+                    pre.pto_count, post.pto_count
+                ),
+                at,
+            );
+        }
+        self.pto_reset_ok = false;
+        self.repeated_discard = false;
 
         // ---- (d)
         if post.cwnd < 2 * MSS && pre.cwnd >= 2 * MSS {
@@ -872,8 +932,7 @@ impl<'a> Sim<'a> {
         }
 
         // ---- (g)
-        let model_sum: usize =
-            self.spaces.iter().flat_map(|s| s.pkts.values()).filter(|p| p.inf && p.st == St::Out).map(|p| p.size).sum();
+        let model_sum = self.model_sum;
         let delta = post.bytes_in_flight as i64 - model_sum as i64;
         if delta != self.g_delta {
             self.out.violate(
